@@ -1153,14 +1153,21 @@ fn directed(rng: &mut Rng) -> Vec<(&'static str, Params, Vec<Op>)> {
         ops.push(Op::Insert { row: 9, v: mk(rng), rnd: 0.9 });
         ops.push(all(rng));
         out.push(("insert_after_delete", base.clone(), ops));
-        // more nodes than one neighbour list can hold
+        // more nodes than one level-0 neighbour list can hold (M=16: 32), still less than half a page
         let mut ops = vec![];
-        for r in 1..=40u64 {
+        for r in 1..=38u64 {
             ops.push(Op::Insert { row: r, v: mk(rng), rnd: 0.9 });
         }
         ops.push(all(rng));
         ops.push(all(rng));
-        out.push(("forty_nodes_full_width_search", base.clone(), ops));
+        out.push(("thirty_eight_nodes_full_width_search", base.clone(), ops));
+        // 40 level-0 nodes: more than half of a 16 KiB node page
+        let mut ops = vec![];
+        for r in 1..=44u64 {
+            ops.push(Op::Insert { row: r, v: mk(rng), rnd: 0.9 });
+        }
+        ops.push(all(rng));
+        out.push(("forty_four_nodes_one_page", base.clone(), ops));
         // levels + reopen
         let mut ops = vec![];
         for r in 1..=12u64 {
@@ -1329,7 +1336,7 @@ fn check_sq8(ctx: &mut Ctx, v: &[f32]) -> bool {
 // because a damaged index can ask for terabytes (alloc failure aborts, which catch_unwind cannot see)
 // ------------------------------------------------------------------------------------------------
 
-const N_DIRECTED: u64 = 10;
+const N_DIRECTED: u64 = 12;
 
 fn splitmix64(mut z: u64) -> u64 {
     z = z.wrapping_add(0x9E3779B97F4A7C15);
